@@ -109,7 +109,7 @@ def render_items(items, kind, vers, pads=None):
     for k, it in enumerate(items):
         m, u, v, d = it[:4]
         p = (pads[k] if pads else None) or (0, 3, 1, 1)
-        if kind == "W" and vers == 1.2 and m.upper() not in ("STRT", "STOP", "STEP", "NULL"):
+        if kind == "W" and vers in (1.0, 1.2) and m.upper() not in ("STRT", "STOP", "STEP", "NULL"):
             out.append(hline(m, u, d, v, p))
         else:
             out.append(hline(m, u, v, d, p))
